@@ -936,6 +936,10 @@ def describe_origin(f, o, depth=0):
     return k
 
 
+ELEM_ACCESS = re.compile(r"(std::ops::Index::index|std::ops::IndexMut::index_mut|core::slice::<impl \[T\]>::(get|get_mut|first|last|first_mut|last_mut)|std::vec::Vec::<T, A>::(get|get_mut))$")
+NORMALISE_ELEM = True
+
+
 def stable_origin(f, o, depth=0, _seen=None):
     """like describe_origin, but free of the names of locals and parameters (a renamed variable must not change an
     obligation key): parameters by position, multiply-assigned locals by the set of what is assigned to them, captured
@@ -951,6 +955,8 @@ def stable_origin(f, o, depth=0, _seen=None):
         c = t.get("callee") or ""
         if c in TRANSPARENT_CALLEES and t["args"]:
             return stable_origin(f, f.origin_op(t["args"][0]), depth + 1, _seen)
+        if NORMALISE_ELEM and ELEM_ACCESS.search(c):
+            return "elem"          # an element of a collection, however it is fetched (v[i], v.get(i), v.first() ...)
         return "call:" + (t.get("resolved") or t.get("callee") or "indirect")
     if k == "const":
         return o[1].get("const", "const")
@@ -959,6 +965,11 @@ def stable_origin(f, o, depth=0, _seen=None):
     if k == "place":
         projs = o[2]
         base = o[1]
+        if NORMALISE_ELEM and base[0] == "call" and ELEM_ACCESS.search(base[1].get("callee") or "") and projs and isinstance(projs[0], dict) and projs[0].get("downcast") == "Some":
+            # v.get(i) -> Some(elem): skip the downcast and the payload field
+            projs = projs[1:]
+            if projs and isinstance(projs[0], dict) and projs[0].get("name") == "0":
+                projs = projs[1:]
         if f.kind == "Closure" and base == ("param", 1):
             s = "P1"
             for i, pr in enumerate(projs):
